@@ -81,6 +81,7 @@ func c04One(i int, r *rand.Rand, res *core.Result) {
 	}
 	njc := 1 + r.Intn(5)
 	type plan struct {
+		ns      string
 		name    string
 		created time.Time
 		updated time.Time // zero: never
@@ -89,7 +90,7 @@ func c04One(i int, r *rand.Rand, res *core.Result) {
 	}
 	var plans []*plan
 	for k := 0; k < njc; k++ {
-		p := &plan{name: fmt.Sprintf("jc-%d", k), created: rel()}
+		p := &plan{ns: "default", name: fmt.Sprintf("jc-%d", k), created: rel()}
 		if r.Intn(3) == 0 {
 			if u := rel(); u.After(p.created) {
 				p.updated = u
@@ -121,6 +122,20 @@ func c04One(i int, r *rand.Rand, res *core.Result) {
 		}
 		plans = append(plans, p)
 	}
+	// twins: the same name and schedule in a second namespace (they fall due together after the restart)
+	var twins []*plan
+	if r.Intn(3) == 0 {
+		for _, p := range plans {
+			if r.Intn(2) == 0 {
+				t := *p
+				t.jc = p.jc.DeepCopy()
+				t.jc.Namespace = "team-b"
+				t.ns = "team-b"
+				twins = append(twins, &t)
+			}
+		}
+		plans = append(plans, twins...)
+	}
 	// replay the history in time order
 	type step struct {
 		at time.Time
@@ -130,7 +145,7 @@ func c04One(i int, r *rand.Rand, res *core.Result) {
 	for _, p := range plans {
 		p := p
 		steps = append(steps, step{p.created, func() {
-			if _, err := h.jcClient("default").Create(ctx, p.jc, metav1.CreateOptions{}); err != nil {
+			if _, err := h.jcClient(p.ns).Create(ctx, p.jc, metav1.CreateOptions{}); err != nil {
 				p.jc = nil
 			}
 		}})
@@ -139,10 +154,10 @@ func c04One(i int, r *rand.Rand, res *core.Result) {
 				if p.jc == nil {
 					return
 				}
-				if cur, err := h.jcClient("default").Get(ctx, p.name, metav1.GetOptions{}); err == nil {
+				if cur, err := h.jcClient(p.ns).Get(ctx, p.name, metav1.GetOptions{}); err == nil {
 					cur.Spec.Schedule.Cron.Expressions = nil
 					cur.Spec.Schedule.Cron.Expression = frequentExpr(r, quartz, g.hashNames())
-					_, _ = h.jcClient("default").Update(ctx, cur, metav1.UpdateOptions{})
+					_, _ = h.jcClient(p.ns).Update(ctx, cur, metav1.UpdateOptions{})
 				}
 			}})
 		}
@@ -151,7 +166,7 @@ func c04One(i int, r *rand.Rand, res *core.Result) {
 				if p.jc == nil {
 					return
 				}
-				jcs := h.ctrl.Furiko().ExecutionV1alpha1().JobConfigs("default")
+				jcs := h.ctrl.Furiko().ExecutionV1alpha1().JobConfigs(p.ns)
 				if cur, err := jcs.Get(ctx, p.name, metav1.GetOptions{}); err == nil {
 					ts := metav1.NewTime(p.lastSch)
 					cur.Status.LastScheduled = &ts
